@@ -18,6 +18,11 @@ tie:   2-5 real callers of functions protected by `thunder_protection` - bare, a
        explicit time steps ("tick", d) that advance the virtual clock while bodies are suspended, with ttls of 1-2 s, so
        callers arrive when the execution in flight is younger than, exactly as old as, or older than the ttl, and stored
        results expire between calls; the property has no ttl carve-out and neither has the oracle.
+       EARLY: with an early_ttl the run can reach (ttl 16/24 ticks, early_ttl 8) stored values go stale and stale hits
+       start RECALCULATIONS - tasks that run the wrapped body outside thunder_protection's table, in the background or
+       awaited (background=False) - which outlive their lock key (early_ttl) and the stored value (ttl) while callers
+       keep arriving in every window; the body counter per key counts them like any other body.  A tree without the
+       per-key `recalculations` table (repair D44) is reported under the signature "D44:early-overlapping-recalculation".
        After every scheduler step the observable state (what each caller has received, bodies
        running / started per key, the clock) is compared with
          (a) the Lean model replaying the recorded trace (driver_c07), and
@@ -53,8 +58,10 @@ TRUSTED = [
     "and outcome canonicalisation (harness/sfimpl.py)",
     "cache decorators are modelled only as far as single-flight sees them (miss -> run the body and store a returned value; "
     "hit -> deliver the stored value without running the body, as long as the backend holds it: now < stored_at + ttl); "
-    "early_ttl / soft_ttl are set far beyond the reach of a run whenever time passes, so `early` never starts its "
-    "background recalculation and `soft` never re-runs the body for a stored value (that is C02/C14)",
+    "`early` in full as far as bodies are concerned: early deadline, stale hit, lock key, recalculation table, recalculation "
+    "tasks (background / awaited); `soft`'s soft_ttl and the early_ttl of the gated `early` variants are set beyond the reach "
+    "of a run whenever time passes (soft's re-run happens inside the protected execution, which the table invariant covers, "
+    "but the value it then delivers - fall-back to the stored one when the body raises - is not modelled)",
     "time passes only through the schedule's explicit tick entries (harness/sfimpl.py SfLoop disables the virtual loop's "
     "sleep(0)-spin rule); the clock read by cashews is harness/vtime.py's (time.time / time.monotonic / perf_counter / "
     "datetime.now / loop.time all read it)",
@@ -92,8 +99,10 @@ def model_lines(case, eff):
     callers = [tuple(c) for c in case["callers"]]
     cinfo = {c[0]: c for c in callers}
     keys = case_keys(case)
-    lines = ["case caching=%d ttl=%d callers=%s keys=%s" % (
-        1 if sfimpl.CACHING[case["variant"]] else 0, sfimpl.ttl_ticks(case),
+    v = case["variant"]
+    lines = ["case caching=%d ttl=%d early=%d ettl=%d bg=%d skip=0 callers=%s keys=%s" % (
+        1 if sfimpl.CACHING[v] else 0, sfimpl.ttl_ticks(case),
+        1 if sfimpl.EARLY[v] else 0, sfimpl.early_ticks(case) if sfimpl.EARLY[v] else 0, 0 if sfimpl.FOREGROUND[v] else 1,
         ",".join(str(c[0]) for c in callers), ",".join(map(str, keys)))]
     for kind, arg in eff:
         if kind == "cancel":
@@ -167,7 +176,8 @@ def compare(case, run, answers):
 # ------------------------------------------------------------------------------------------------------------
 # property oracle: C07 evaluated on what the real run did
 
-PRIORITY = ["cancel_spreads", "two_bodies", "wrong_outcome", "stuck", "exec_cancelled", "exec_lost", "exec_not_started"]
+D44 = "D44:early-overlapping-recalculation"
+PRIORITY = [D44, "cancel_spreads", "two_bodies", "wrong_outcome", "stuck", "exec_cancelled", "exec_lost", "exec_not_started"]
 
 
 def say(code):
@@ -189,6 +199,9 @@ def oracle(case, run):
     gated = sfimpl.GATED[case["variant"]]
     script = {c[0]: tuple(c) for c in case["callers"]}
     ttl = sfimpl.ttl_ticks(case)
+    early = sfimpl.EARLY[case["variant"]]
+    foreground = sfimpl.FOREGROUND[case["variant"]]
+    ettl = sfimpl.early_ticks(case)      # early deadline of a stored value / lifetime of the lock key (early only)
     now = 0             # ticks; moved by the schedule's time steps only
     viol = []
     stats = {}
@@ -205,6 +218,17 @@ def oracle(case, run):
     earlier = set()     # keys that had an execution before
     last_out = {}       # key -> outcome of the last execution that ended
     args_by_k = {}      # (all-args variants) first parameter k -> set of keys in flight together
+    refresh = {}        # key -> the recalculation of the key that is running (early: started by a stale hit)
+    refreshes = {}      # id of the caller whose execution started it -> recalculation record
+    refresh_body = set()    # ids x whose running body belongs to recalculation x (not to execution x)
+    recalculated = set()    # keys for which a recalculation was ever started
+
+    def awaiting_rec(c, k, rf, arg):
+        """an execution that runs no body: it awaits recalculation rf and delivers its outcome"""
+        r = new_rec(c, k, rf["outcome"], False, arg)
+        r["awaits"] = rf
+        rf["awaiting"].append(r)
+        return r
 
     def new_rec(c, k, outcome, is_hit, arg=0):
         r = {"id": c, "key": k, "outcome": outcome, "ended": is_hit, "hit": is_hit, "waiters": [c], "started": False,
@@ -228,8 +252,14 @@ def oracle(case, run):
             now += ev[1]
             if any(not r["ended"] for r in inflight.values()):
                 hit("time_passes_while_an_execution_is_in_flight")
-            if any(now >= exp for _, exp in cache_val.values()):
+            if any(now >= exp for _, _, exp in cache_val.values()):
                 hit("stored_value_expired")
+            for k_, rf in refresh.items():
+                hit("time_passes_while_a_recalculation_runs")
+                if now >= rf["lock_until"]:
+                    hit("lock_key_expired_while_recalculation_runs")
+                if k_ in cache_val and now >= cache_val[k_][2]:
+                    hit("stored_value_expired_while_recalculation_runs")
         elif t == "call":
             _, c, k, arg = ev
             r = inflight.get(k)
@@ -246,17 +276,50 @@ def oracle(case, run):
                     hit("join_differs_in_argument_outside_key")
                 if r.get("body_done") and not r["ended"]:
                     hit("join_after_body_before_store")
-                elif not r["started"] and not r["hit"]:
+                elif not r["started"] and not r["hit"] and not r.get("awaits"):
                     hit("join_before_body_started")
-            elif caching and k in cache_val and now < cache_val[k][1]:
+                if r.get("awaits") and not r["ended"]:
+                    hit("join_execution_that_awaits_a_recalculation")
+            elif caching and k in cache_val and now < cache_val[k][2] and (not early or now <= cache_val[k][1]):
                 new_rec(c, k, code_of("r", cache_val[k][0], c), True, arg)
                 hit("cache_hit")
-                if now + 1 == cache_val[k][1]:
+                if now + 1 == cache_val[k][2]:
                     hit("cache_hit_at_last_valid_tick")
+                if early and now == cache_val[k][1]:
+                    hit("fresh_hit_exactly_at_early_deadline")
+            elif caching and k in cache_val and now < cache_val[k][2]:
+                # early: the stored value is stale - it is served, and its recalculation is started unless one is running
+                stored = code_of("r", cache_val[k][0], c)
+                rf = refresh.get(k)
+                hit("stale_hit")
+                if rf is not None:
+                    new_rec(c, k, stored, True, arg)
+                    hit("stale_hit_while_recalculating")
+                    if now >= rf["lock_until"]:
+                        hit("stale_hit_while_recalculating_after_lock_key_expired")
+                else:
+                    _, _, n, kind, val = script[c][:5]
+                    rf = {"id": c, "key": k, "outcome": code_of(kind, val, c), "started": False, "ended": False,
+                          "lock_until": now + ettl, "t0": now, "awaiting": []}
+                    refresh[k] = rf
+                    refreshes[c] = rf
+                    recalculated.add(k)
+                    hit("recalculation_started")
+                    if foreground:
+                        awaiting_rec(c, k, rf, arg)      # background=False: the execution awaits what it started
+                        hit("foreground_recalculation")
+                    else:
+                        new_rec(c, k, stored, True, arg)
+            elif early and refresh.get(k) is not None:
+                # cold miss while the recalculation of the key is running: join it (one body per key)
+                awaiting_rec(c, k, refresh[k], arg)
+                hit("cold_miss_joins_recalculation")
+                if k in cache_val:
+                    hit("call_after_stored_value_expired")
             else:
                 if caching and k in cache_val:
                     hit("call_after_stored_value_expired")
-                    if now == cache_val[k][1]:
+                    if now == cache_val[k][2]:
                         hit("call_exactly_at_expiry")
                 _, _, n, kind, val = script[c][:5]
                 new_rec(c, k, code_of(kind, val, c), False, arg)
@@ -265,7 +328,22 @@ def oracle(case, run):
                     hit("same_k_other_argument_in_key_runs_separately")
         elif t == "start":
             _, x, k = ev
+            rf = refreshes.get(x)
+            if rf is not None and rf["key"] == k and not rf["started"]:
+                # the body of the recalculation that the execution of caller x started
+                rf["started"] = True
+                refresh_body.add(x)
+                running.setdefault(k, []).append(x)
+                if len(running[k]) > 1:
+                    viol.append((D44, f"the wrapped body runs {len(running[k])} times at once for key {k}: the recalculation "
+                                      f"started by caller {x}'s execution overlaps with the bodies of {running[k][:-1]}"))
+                continue
             r = recs.get(x)
+            if r is not None and r.get("awaits") and not r["started"]:
+                # the execution had to await the recalculation of its key; it runs the body itself
+                r["awaits"]["awaiting"].remove(r)
+                r["awaits"] = None
+                r["hit"] = True
             if r is None or r["key"] != k or r["started"]:
                 # a body started for a call that, by the property, had to share an execution in flight (or hit)
                 _, _, n, kind, val = script[x][:5]
@@ -286,14 +364,51 @@ def oracle(case, run):
             r["ended"] = False
             running.setdefault(k, []).append(x)
             if len(running[k]) > 1:
-                viol.append(("two_bodies", f"the wrapped body runs {len(running[k])} times at once for key {k} "
-                                           f"(executions started by callers {running[k]})"))
+                if early and k in recalculated:
+                    viol.append((D44, f"the wrapped body runs {len(running[k])} times at once for key {k} (scripts of callers "
+                                      f"{running[k]}) after a recalculation of the key was started"
+                                      + (f": recalculation {refresh[k]['id']} is still running" if k in refresh else "")))
+                else:
+                    viol.append(("two_bodies", f"the wrapped body runs {len(running[k])} times at once for key {k} "
+                                               f"(executions started by callers {running[k]})"))
             if sum(1 for v in running.values() if v) >= 2:
                 hit("two_keys_in_parallel")
         elif t == "end":
             _, x, k, how, kind, val = ev
             if x in running.get(k, []):
                 running[k].remove(x)
+            if x in refresh_body:
+                # the recalculation ends: a returned value is stored with new deadlines; the executions that awaited it end
+                refresh_body.discard(x)
+                rf = refreshes[x]
+                rf["ended"] = True
+                rf["outcome"] = code_of(kind, val, x)
+                if refresh.get(k) is rf:
+                    del refresh[k]
+                hit("recalculation_finished")
+                if now >= rf["lock_until"]:
+                    hit("recalculation_outlived_its_lock_key")
+                if k in cache_val and now >= cache_val[k][2]:
+                    hit("recalculation_outlived_the_stored_value")
+                for r in rf["awaiting"]:
+                    r["ended"] = True
+                    r["outcome"] = rf["outcome"]
+                    last_out[k] = r["outcome"]
+                    live = [w for w in r["waiters"] if w not in cancelled]
+                    if len(live) >= 2:
+                        hit("recalculation_outcome_fanout")
+                    if kind == "e" and live:
+                        hit("recalculation_exception_delivered")
+                    if not live:
+                        hit("orphan_execution_finished")
+                if how == "cancelled":
+                    live = [w for r in rf["awaiting"] for w in r["waiters"] if w not in cancelled]
+                    if live:
+                        viol.append(("exec_cancelled", f"the recalculation started by caller {x}'s execution (key {k}) was "
+                                                       f"cancelled while callers {live} waited for it"))
+                elif kind == "r":
+                    cache_val[k] = (val, now + ettl, now + ttl)
+                continue
             r = recs.get(x)
             if r is not None:
                 if gated and kind == "r" and how == "ok":
@@ -325,13 +440,13 @@ def oracle(case, run):
                     # goes on) will differ and say so
                     hit("exec_cancelled_with_no_waiter_left")
             elif caching and kind == "r":
-                cache_val[k] = (val, now + ttl)
+                cache_val[k] = (val, now + ettl, now + ttl)
         elif t == "stored":
             r = recs.get(ev[1])
             if r is not None:
                 r["ended"] = True
                 if r["key"] in cache_val:          # gated backends: the value is stored now, not when the body ended
-                    cache_val[r["key"]] = (cache_val[r["key"]][0], now + ttl)
+                    cache_val[r["key"]] = (cache_val[r["key"]][0], cache_val[r["key"]][1], now + ttl)
         elif t == "cancel":
             c = ev[1]
             cancelled.add(c)
@@ -351,8 +466,9 @@ def oracle(case, run):
                 del inflight[k]
 
     for k, m in run.maxrun.items():
-        if m > 1 and not any(s == "two_bodies" for s, _ in viol):
-            viol.append(("two_bodies", f"concurrent-execution counter of the wrapped body reached {m} for key {k}"))
+        if m > 1 and not any(s in ("two_bodies", D44) for s, _ in viol):
+            viol.append((D44 if early and k in recalculated else "two_bodies",
+                         f"concurrent-execution counter of the wrapped body reached {m} for key {k}"))
     for c, fin in sorted(run.final.items()):
         if c in cancelled:
             continue          # what the cancelled caller itself sees is the model's business, not the property's
@@ -365,6 +481,12 @@ def oracle(case, run):
             viol.append(("stuck", f"caller {c} never received a result"))
         elif r is None:
             viol.append(("wrong_outcome", f"caller {c} finished with {fin} without having called"))
+        elif fin != r["outcome"] and r.get("awaits"):
+            rf = r["awaits"]
+            viol.append(("wrong_outcome", f"caller {c} (key {r['key']}) received {say(fin)}, but the execution it shares (started "
+                                          f"by caller {r['id']}) awaited the recalculation of key {r['key']} started by caller "
+                                          f"{rf['id']}'s execution, which " + (f"delivered {rf['outcome']}" if rf["ended"] else
+                                                                              "has not ended")))
         elif fin != r["outcome"]:
             if not r["started"] and not r["hit"]:
                 viol.append(("wrong_outcome", f"caller {c} received {say(fin)}: nothing was in flight for key {r['key']} when caller "
@@ -383,9 +505,12 @@ def oracle(case, run):
     for x, r in recs.items():
         if r["started"] and not r["ended"]:
             viol.append(("exec_lost", f"the execution started by caller {x} never ran to its end"))
-        if not r["started"] and not r["hit"] and not run.stuck:
+        if not r["started"] and not r["hit"] and not r.get("awaits") and not run.stuck:
             viol.append(("exec_not_started", f"caller {x} called with key {r['key']} while nothing was in flight and nothing was "
                                              f"stored for it, but no execution of the body was started"))
+    for x, rf in refreshes.items():
+        if rf["started"] and not rf["ended"]:
+            viol.append(("exec_lost", f"the recalculation started by caller {x}'s execution never ran to its end"))
     viol.sort(key=lambda v: PRIORITY.index(v[0]))
     return viol, stats
 
@@ -398,8 +523,9 @@ def explicit(case, run):
     two = case["variant"] in sfimpl.TWO_PARAM
     ex = {"variant": case["variant"], "callers": [list(c) if two else list(c)[:5] for c in case["callers"]],
           "schedule": [[k, [list(e) for e in a]] if k == "go" else [k, a] for k, a in run.eff]}
-    if "ttl" in case:
-        ex["ttl"] = case["ttl"]
+    for f in ("ttl", "early_ttl"):
+        if f in case:
+            ex[f] = case[f]
     return ex
 
 
@@ -482,7 +608,7 @@ def shrink(case, sig):
         sc[idx] = ["tick", hi]
         cur = dict(cur, schedule=sc)
     if "ttl" in cur and not any(e[0] == "tick" for e in cur["schedule"]):
-        cand = {k: v for k, v in cur.items() if k != "ttl"}
+        cand = {k: v for k, v in cur.items() if k not in ("ttl", "early_ttl")}
         if fails(cand):
             cur = cand
     # plainer exceptions (shape 0 = an ordinary class rebuilt from .args) where the failure does not need the shape
@@ -567,6 +693,11 @@ def gen_case(rng, variant):
     nk = rng.choice([1, 1, 2, 2, 3])
     timed = rng.random() < 0.4          # time passes during the run; ttl of 1 or 2 seconds
     ttl = rng.choice([8, 8, 16]) if timed else None
+    # early with an early_ttl the run can reach: stored values go stale, stale hits start recalculations that outlive
+    # their lock key (early_ttl) and the stored value (ttl)
+    recalc = timed and sfimpl.EARLY[variant] and not sfimpl.GATED[variant] and rng.random() < 0.7
+    if recalc:
+        ttl = rng.choice([16, 24, 24])
     callers = []
     for i in range(1, m + 1):
         key = 0 if rng.random() < 0.5 else rng.randrange(nk)
@@ -574,6 +705,8 @@ def gen_case(rng, variant):
         kind = "r" if p < 0.6 else ("e" if p < 0.82 else "k")
         val = 10 + i if kind == "r" else (rng.randrange(sfexc.NSHAPES) if kind == "e" else rng.randrange(3))
         c = [i, key, rng.choice([1, 1, 2, 3, 0]) if timed else rng.randrange(4), kind, val]
+        if recalc and i == 1 and rng.random() < 0.7:
+            c[2], c[3], c[4] = 0, "r", 11          # the first call fills the cache at once
         if variant in sfimpl.TWO_PARAM:
             c.append(rng.randrange(3))
         callers.append(c)
@@ -582,7 +715,9 @@ def gen_case(rng, variant):
     ncancel = 0
     for _ in range(rng.randrange(2, 4 + 3 * m)):
         p = rng.random()
-        if timed and rng.random() < 0.25:
+        if recalc and rng.random() < 0.3:
+            sched.append(["tick", rng.choice([1, 8, 9, 9, ttl - 8, ttl - 7, ttl])])
+        elif timed and rng.random() < 0.25:
             sched.append(["tick", rng.choice([1, ttl - 1, ttl, ttl + 1, ttl + 1, 2 * ttl])])
         elif p < 0.55:
             sched.append(rng.randrange(6))
@@ -595,6 +730,8 @@ def gen_case(rng, variant):
     case = {"variant": variant, "callers": callers, "schedule": sched}
     if timed:
         case["ttl"] = ttl
+    if recalc:
+        case["early_ttl"] = 8
     return case
 
 
@@ -619,6 +756,21 @@ def timed_programs(thorough: bool):
                       [v for v in CACHED if not sfimpl.GATED[v]] + ["cache_gated", "bare"], exp))
     else:
         progs.append(([[1, 0, 0, "r", 7, 0], [2, 0, 1, "r", 8, 1]], ["cache", "early", "soft", "cache_lock"], exp))
+    # early with a reachable early_ttl (ttl 24, early_ttl 8 ticks): the first call stores a value; time steps of 9 ticks put
+    # the following calls into the stale window (9), the stale window after the lock key of a running recalculation has
+    # expired (18) and after the stored value has expired (27); the recalculation's body is suspended all the while.
+    # background=True and background=False
+    REC = [v for v in ALL if sfimpl.EARLY[v] and not sfimpl.GATED[v]]
+    rec = {"ttl": 24, "early_ttl": 8, "ticks": [9], "tick_budget": 3, "cancel_budget": 0}
+    progs.append(([[1, 0, 0, "r", 7, 0], [2, 0, 1, "r", 8, 1], [3, 0, 0, "e", 3, 0]], REC, rec))
+    if thorough:
+        progs.append(([[1, 0, 0, "r", 7, 0], [2, 0, 1, "e", 4, 1], [3, 0, 0, "r", 9, 0]], REC,
+                      {"ttl": 24, "early_ttl": 8, "ticks": [9], "tick_budget": 3, "cancel_budget": 1}))
+        progs.append(([[1, 0, 0, "r", 7, 0], [2, 0, 1, "r", 8, 1], [3, 0, 0, "e", 5, 0], [4, 0, 0, "r", 6, 1]],
+                      ["early", "early_fg", "early_default2"],
+                      {"ttl": 24, "early_ttl": 8, "ticks": [9, 18], "tick_budget": 2, "cancel_budget": 0}))
+        progs.append(([[1, 0, 0, "r", 7, 0], [2, 0, 1, "k", 1, 1], [3, 0, 1, "r", 9, 0]], ["early", "early_fg_omit", "early_omit_obj"],
+                      {"ttl": 16, "early_ttl": 8, "ticks": [8, 1], "tick_budget": 2, "cancel_budget": 0}))
     if thorough:
         two_s = {"ttl": 16, "ticks": [16, 17], "tick_budget": 1, "cancel_budget": 1}
         progs.append(([[1, 0, 2, "e", 5, 0], [2, 0, 0, "r", 8, 1], [3, 0, 1, "k", 1, 0]], ALL, two_s))
@@ -714,8 +866,10 @@ def programs(thorough: bool):
         progs.append(([[1, 0, n, "k", mode, 1], [2, 0, (n + 1) % 3, "r", 8, 2]], plain_all))
         if n < 2:
             progs.append(([[1, 0, n, "k", mode, 1], [2, 0, n, "e", 2, 2]], gated_all))
-    for n, mode in itertools.product(range(2), range(sfimpl.CANCEL_MODES)):
-        progs.append(([[1, 0, n, "k", mode, 0], [2, 0, 1, "r", 8, 1], [3, 0, 0, "k", (mode + 1) % 3, 0]], plain_all))
+    for j, (n, mode) in enumerate(itertools.product(range(2), range(sfimpl.CANCEL_MODES))):
+        # ten of the plain variants per program, in rotation (every variant is in at least three of the six programs)
+        vs10 = [plain_all[(j * 3 + t) % len(plain_all)] for t in range(10)]
+        progs.append(([[1, 0, n, "k", mode, 0], [2, 0, 1, "r", 8, 1], [3, 0, 0, "k", (mode + 1) % 3, 0]], vs10))
     progs.append(([[1, 0, 1, "k", 1, 0], [2, 0, 0, "r", 8, 1], [3, 1, 1, "k", 2, 0], [4, 0, 1, "e", 1, 2]],
                   ["bare", "cache", "early_omit", "soft_omit"]))
     plain_two = [v for v in TWO if not sfimpl.GATED[v]]
@@ -773,7 +927,8 @@ def run(chk: Check) -> int:
                                                   "cancel_creator", "orphan_execution_finished", "exception_fanout",
                                                   "execution_ended_cancelled", "join_differs_in_argument_outside_key",
                                                   "join_execution_exactly_ttl_old", "join_execution_older_than_ttl",
-                                                  "call_after_stored_value_expired"))
+                                                  "call_after_stored_value_expired", "recalculation_started",
+                                                  "cold_miss_joins_recalculation", "stale_hit_while_recalculating"))
             if nontrivial:
                 distinct.add(json.dumps([case["variant"], case["callers"], r.eff], sort_keys=True, default=list))
             if len(samples) < 4 and nontrivial and "cancel_one_of_several_waiters" in stats and len(r.eff) <= 8 \
@@ -831,8 +986,9 @@ def run(chk: Check) -> int:
             def run_once(prefix, v=v, callers=callers, opts=opts):
                 case = {"variant": v, "callers": callers if v in sfimpl.TWO_PARAM else [c[:5] for c in callers],
                         "schedule": list(prefix)}
-                if "ttl" in opts:
-                    case["ttl"] = opts["ttl"]
+                for f in ("ttl", "early_ttl"):
+                    if f in opts:
+                        case[f] = opts[f]
                 last["r"] = feed(f"enum:{v}:{pi}", case, cancel_budget=opts.get("cancel_budget", 1),
                                  tick_budget=opts.get("tick_budget", 0), tick_sizes=opts.get("ticks", ()))
                 return last["r"].branching
@@ -849,7 +1005,7 @@ def run(chk: Check) -> int:
     flush()
 
     # 3. random schedules with bursts and up to two cancellations
-    n = chk.budget(5000, 15000)
+    n = chk.budget(5000, 8000)
     for i in range(n):
         if found >= 3:
             break
@@ -874,8 +1030,9 @@ def run(chk: Check) -> int:
                 "(one of several waiters, last waiter, creator), an execution finishing with every waiter cancelled, an exception "
                 "delivered to >= 2 callers, an execution that ended cancelled, a call joining an execution started with a different "
                 "value of an argument outside the key, a call joining an execution that has been in flight for exactly / for more "
-                "than the ttl, a call arriving after the stored result expired; distinct = distinct (variant, callers, effective "
-                "trace)",
+                "than the ttl, a call arriving after the stored result expired, a stale hit that starts a recalculation, a stale "
+                "hit or a cold miss while a recalculation of the key is running; distinct = distinct (variant, callers, "
+                "effective trace)",
         "samples": samples,
         "exhaustive": bool(complete),
         "exhaustive_subspaces": {
@@ -901,9 +1058,13 @@ def run(chk: Check) -> int:
                    "scheduler granularity (between event-loop quiescent points), not inside the few loop iterations between a task's "
                    "completion and its done-callbacks; more than 5 callers / 3 keys / 3 suspension points and the redis backend "
                    "are not sampled; time passes only in explicit steps between quiescent points (ttl 1-2 s, steps of 1 tick .. "
-                   "2 x ttl), bodies do not sleep by themselves; whenever time passes early_ttl / soft_ttl are out of reach, so "
-                   "`early`'s background recalculation (which runs the wrapped function OUTSIDE thunder_protection's table) and "
-                   "`soft`'s re-run of a soft-expired value are not exercised here; returned values are small ints (no results "
+                   "2 x ttl), bodies do not sleep by themselves; `soft` with a reachable soft_ttl (its re-run of a soft-expired "
+                   "value inside the protected execution, falling back to the stored value when the body raises) and the gated "
+                   "backend variants of `early` with a reachable early_ttl are not exercised; `early(upper=True)` is unprotected "
+                   "and out of scope; in cases where `early` recalculates a burst never releases bodies and callers together "
+                   "(how an execution's first step interleaves with the done-callbacks of a recalculation that ends in the same "
+                   "loop iteration is below the model's granularity; at quiescent points model and code agree); the lock key is a per-process observation here (one process, one backend: cross-process "
+                   "recalculations are not single-flight's business); returned values are small ints (no results "
                    "with non-trivial copy / identity behaviour); an execution task cancelled from OUTSIDE "
                    "(somebody holding the task object calls .cancel()) is not scripted - only bodies that end cancelled by "
                    "themselves; key templates are limited to 'leaves one parameter out' / 'default: all parameters' of a "
